@@ -233,7 +233,7 @@ func init() {
 		}
 		for _, ex := range []int{1, 2, 3, 5} {
 			v := trig[ex]
-			Register(&Job{Name: "C08/engine/" + names[ex][0], Prop: "C08", Family: names[ex][1], Bound: 1, BoundT: 2, Budget: 45, BudgetT: 600,
+			Register(&Job{Name: "C08/engine/" + names[ex][0], Prop: "C08", Family: "regression:" + names[ex][1][8:] + " (fixed)", Bound: 1, BoundT: 2, Budget: 45, BudgetT: 600,
 				Desc: "tree shapes 1x1, 1x2, 2x1: " + descs[ex], Make: func() vsched.Instance { return engTree(v) }})
 		}
 	}
